@@ -119,31 +119,58 @@ func codecParseSpec(s string) (seed uint64, variant int, ok bool) {
 	return seed, variant, true
 }
 
-// codecParamDisc names the first parameter item of body that the re-encoding lost.
+// codecParamDisc classifies how the re-encoding of a parameter list differs from
+// body: an item that is present with length 0 is lost ("zero-length"), an item
+// with a value is lost ("id0x…"), or all items are there in another order
+// ("id0x…-moved", the first item that changed place).
 func codecParamDisc(body, enc []byte) string {
-	if len(body) < 1 {
-		return ""
+	type item struct {
+		id uint32
+		n  int
 	}
-	have := map[uint32]bool{}
-	walk := func(b []byte, f func(id uint32)) {
+	walk := func(b []byte) []item {
+		var out []item
 		for i := 1; i+5 <= len(b); {
 			id := binary.BigEndian.Uint32(b[i:])
 			n := int(b[i+4])
 			if i+5+n > len(b) {
-				return
+				break
 			}
-			f(id)
+			out = append(out, item{id, n})
 			i += 5 + n
 		}
+		return out
 	}
-	walk(enc, func(id uint32) { have[id] = true })
-	out := ""
-	walk(body, func(id uint32) {
-		if out == "" && !have[id] {
-			out = fmt.Sprintf("id0x%04x", id)
+	bi, ei := walk(body), walk(enc)
+	have := map[uint32]bool{}
+	for _, it := range ei {
+		have[it.id] = true
+	}
+	for _, it := range bi {
+		if !have[it.id] {
+			if it.n == 0 {
+				return "zero-length"
+			}
+			return fmt.Sprintf("id0x%04x", it.id)
 		}
-	})
-	return out
+	}
+	for k := range bi {
+		if k < len(ei) && bi[k].id != ei[k].id {
+			// the item that Encode wrote later than the body had it
+			for _, it := range bi[k:] {
+				pos := -1
+				for q, x := range ei {
+					if x.id == it.id {
+						pos = q
+					}
+				}
+				if pos > k {
+					return fmt.Sprintf("id0x%04x-moved", it.id)
+				}
+			}
+		}
+	}
+	return ""
 }
 
 func codecOracleRT(c fw.Case) *fw.OracleFailure {
@@ -215,11 +242,21 @@ func codecOracleRT(c fw.Case) *fw.OracleFailure {
 				return nil
 			}
 			if d := codecDiff(v1.vals()[0], want, &codecDiffOpt{skip: codecValueSkip}); d != "" {
-				return fail("value-differs", codecTopField(d), "parsed (left) vs generated (right) value differ at "+d)
+				return fail("value-differs", codecValueField(d), "parsed (left) vs generated (right) value differ at "+d)
 			}
 		}
 	}
 	return nil
+}
+
+// codecValueField names the struct field a value difference sits in; for the
+// parameter list (one field of P0x8103 holding ~90 parameters) the parameter field.
+func codecValueField(d string) string {
+	top := codecTopField(d)
+	if top == "TerminalParamDetails" && strings.HasPrefix(d, top+".") {
+		return codecTopField(d[len(top)+1:])
+	}
+	return top
 }
 
 func codecAllDecimal(b []byte) bool {
@@ -324,7 +361,7 @@ func codecGenC07(r *fw.Rng, tier string, emit func(fw.Case)) {
 			ctx, _ := codecParseCtx(cs)
 			rr := r.Fork()
 			n := 150 * mul
-			if ci >= e.lightFrom {
+			if ci >= e.lightFrom { // C07 gives every dialect the same budget: the layouts differ
 				n = 40 * mul
 			}
 			if e.name == "T0x0002" || e.name == "P0x8104" || e.name == "P0x9003" {
@@ -346,8 +383,11 @@ func codecGenC07(r *fw.Rng, tier string, emit func(fw.Case)) {
 			}
 		}
 	}
-	// parameter ids no struct field can carry, laid out by the harness (one item per
-	// message, so that the order in which Encode writes items does not matter)
+	// parameter items no generated struct value carries, laid out by the harness: the ids
+	// parseParam accepts without having a field (0x02a, 0x02b), fields that reflection
+	// cannot set (none in the tree at the time of writing) and string parameters that are
+	// present with length 0. One item per message, so the order Encode writes items in
+	// does not matter.
 	rr := r.Fork()
 	for k := 0; k < 3*mul; k++ {
 		for _, v := range codecVers {
